@@ -105,7 +105,7 @@ fn gen_perturbs(r: &mut Rng, git: bool) -> Vec<Perturb> {
     out.push(Perturb { lang: Some(r.pick(LOCALES).to_string()), lc_all: if r.chance(1, 2) { Some(r.pick(LOCALES).to_string()) } else { None }, label: "locale".into(), ..Default::default() });
     out.push(Perturb { noise: noise_vars(r), label: "noise".into(), ..Default::default() });
     if git {
-        out.push(Perturb { cwd: 1 + r.below(9) as u8, label: "cwd".into(), ..Default::default() });
+        out.push(Perturb { cwd: 1 + r.below(12) as u8, label: "cwd".into(), ..Default::default() });
     }
     while (out.len() as u64) < n {
         let mut p = Perturb { label: "mix".into(), ..Default::default() };
@@ -122,7 +122,7 @@ fn gen_perturbs(r: &mut Rng, git: bool) -> Vec<Perturb> {
             p.lc_time = Some(r.pick(LOCALES).to_string());
         }
         if git && r.chance(1, 2) {
-            p.cwd = r.below(10) as u8;
+            p.cwd = r.below(13) as u8;
         }
         if r.chance(1, 2) {
             p.noise = noise_vars(r);
@@ -173,8 +173,9 @@ fn gen_argv(r: &mut Rng, source: &str) -> Vec<String> {
             a.push("--dirty".into());
         }
     }
-    match r.below(6) {
+    match r.below(7) {
         0 | 1 => a.extend(["--output-format".into(), r.pick(&["semver", "pep440", "zerv"]).to_string()]),
+        6 => a.extend(["--output-format".into(), "zerv".into()]), // the format that shows every reported fact
         2 | 3 => a.extend(["--output-template".into(), r.pick(PURE_TEMPLATES).to_string()]),
         _ => {}
     }
@@ -217,6 +218,16 @@ pub fn generate(r: &mut Rng, _tier: Tier, _group: u64) -> serde_json::Value {
         if r.chance(4, 5) {
             ops.insert(0, Op::Commit { actor: 0, dt: 0, adt: 0, with_file: false });
             ops.insert(1, Op::Tag { name: "v1.4.2".into(), kind: TagKind::Light, target: None, actor: 0, dt: 0 });
+        }
+        // now and then the nearest tagged commit carries tags of equal precedence (any of them is a right
+        // answer, but it has to be the same one in every process)
+        if r.chance(1, 4) {
+            let (x, y, z) = (r.below(9), r.below(9), r.below(9));
+            for name in [format!("{x}.{y}.{z}"), format!("v{x}.{y}.{z}"), format!("{x}.{y}.{z}+build.1")] {
+                if r.chance(2, 3) {
+                    ops.push(Op::Tag { name, kind: TagKind::Light, target: None, actor: 0, dt: 0 });
+                }
+            }
         }
         // keep commit steps small so that instants stay near the chosen midnight
         for o in ops.iter_mut() {
@@ -279,6 +290,7 @@ impl<'a> Exec<'a> {
         let repo_s = self.repo.to_string_lossy().to_string();
         let mut args: Vec<String> = argv.iter().map(|a| a.replace("$REPO", &repo_s)).collect();
         let mut cwd = PathBuf::from("/");
+        let mut extra_env: Vec<(String, String)> = vec![];
         if self.sc.source == "git" {
             let dash_c = |args: &mut Vec<String>, v: String| {
                 args.insert(1, v);
@@ -314,6 +326,23 @@ impl<'a> Exec<'a> {
                     cwd = target.clone();
                     dash_c(&mut args, target_s.clone());
                 }
+                10 | 11 | 12 => {
+                    // the process sits in a directory reached through a symlink; PWD (10, 11) carries the
+                    // symlinked spelling as a shell would set it; -C is relative and contains `..`
+                    let real_sib = self.rd.dir.join("real-sibling/inner");
+                    let _ = std::fs::create_dir_all(&real_sib);
+                    let far = self.rd.dir.join("far/away");
+                    let _ = std::fs::create_dir_all(&far);
+                    let link = far.join("link-to-inner");
+                    let _ = std::os::unix::fs::symlink(&real_sib, &link);
+                    cwd = link.clone();
+                    // physically: <run>/real-sibling/inner ; ../.. = <run>
+                    let rel_to_target = target.strip_prefix(&self.rd.dir).map(|p| p.to_string_lossy().to_string()).unwrap_or_default();
+                    dash_c(&mut args, format!("../../{rel_to_target}"));
+                    if p.cwd != 12 {
+                        extra_env.push(("PWD".to_string(), link.to_string_lossy().to_string()));
+                    }
+                }
                 _ => dash_c(&mut args, target_s.clone()),
             }
         }
@@ -333,6 +362,11 @@ impl<'a> Exec<'a> {
         for (k, v) in &p.noise {
             env.push((k.clone(), v.clone()));
         }
+        // (after the noise variables: a deliberate PWD wins over a noise PWD)
+        for (k, v) in extra_env {
+            env.retain(|(k2, _)| k2 != &k);
+            env.push((k, v));
+        }
         let stdin = if self.sc.source == "stdin" {
             Stdin::Pipe { data: self.sc.stdin_doc.as_bytes().to_vec(), chunks: vec![5, 11, 200] }
         } else {
@@ -348,6 +382,7 @@ impl<'a> Exec<'a> {
             path: None,
             rm_cwd: false,
             stdout: crate::proc::Stdout::Capture,
+            stderr: crate::proc::Stdout::Capture,
         }
     }
 }
